@@ -426,6 +426,9 @@ def oracle(ctx):
                 if not (ans.startswith("ok ") and got.year == y and year_now - 50 <= got.year <= year_now + 49):
                     case = c.describe(); case.update({"template": t['name'], "year": y, "year_via_decimal": False})
                     ctx.violation("two-digit year must resolve to the unique year within -50..+49 of %d" % year_now, case, {"impl": ans})
+        # the two-digit-year rule under OTHER clock years (parserinfo() built with time.localtime patched to 1950 … 2099): all 100
+        # two-digit years against "the unique year within -50..+49 of the clock year"
+        L.pivot_oracle(ctx)
         # the two witnesses, re-confirmed on every run
         ctx.sample({"text": "Wed May 28 23:52:59 0031", "finding": "D-C02-monthname-century",
                     "impl": L.run_impl(L.Call("Wed May 28 23:52:59 0031", default=datetime.datetime(2001, 1, 1)))[0]})
@@ -461,6 +464,12 @@ def replay(ctx, payload):
     if c.get("text") is None:
         print("not a parse case: %s" % c)
         return False
+    if c.get("tag") == "pivot":
+        call = L.call_from_case(c)
+        a, _, got = L.run_impl(call, raw=True)
+        print("clock year %s (patched: %s): parse(%s) = %s; expected year %s" % (c.get("clock_year"), c.get("patched_clock_year"),
+                                                                              ascii(c["text"]), a, c.get("expected_year")))
+        return a.startswith("ok ") and got.year == c.get("expected_year")
     prev = L.set_tz(c.get("TZ") or "UTC")
     try:
         call = L.call_from_case(c)
